@@ -16,6 +16,7 @@ var monitors = map[string]func(*vk.Ctx){
 	"C03":   runC03,
 	"C06":   runC06,
 	"C07":   runC07,
+	"C08":   runC08,
 }
 
 func main() {
